@@ -1,9 +1,215 @@
-/- C06 - model (stub: not built yet) -/
+/-
+C06 - model of `verifyExpiry`, `verifyAuthenticTimestamp` and `verifyTimestamp`
+(verifier/verifier.go) with `isTSATrustStoreInPolicy` / `loadX509TSATrustStores`
+(verifier/helpers.go).
+
+All instants are `Int` **nanoseconds** on one common time axis (the resolution of Go's
+`time.Time`); durations are nanoseconds too.  The origin of the axis is immaterial - the model
+only compares instants with each other (`run_shift` in Props/C06.lean) - and the harness uses that:
+it calls its clock reading `origin` (0, a Unix time, or a negative number) and sends every other
+instant relative to it.  `now` - the value `time.Now()` returns inside the verifier - is an INPUT
+of the model: the code has no clock seam, the model makes the clock explicit.  (`verifyExpiry` and
+`verifyTimestamp` read the clock separately; the model uses one reading for both - no theorem
+relates the two results, so each statement holds for the reading its own function took.)
+
+Go comparisons and their translation (`time.Before` / `time.After` are strict):
+  `a.Before(b)`  =  `a < b`        `a.After(b)`  =  `a > b`
+  `ts.BoundedAfter(u)`  (tspclient-go)  =  `ts.Value - ts.Accuracy >= u`
+  `ts.BoundedBefore(u)` (tspclient-go)  =  `ts.Value + ts.Accuracy <= u`
+
+What stays abstract (supplied by the scenario as booleans - the work of tspclient-go,
+crypto/x509 and notation-core-go): does the countersignature parse, does its message imprint
+equal the hash of *this* envelope's signature value, does the token verify to a root held by a
+tsa store the policy lists, does the TSA chain obey the timestamping-certificate rules.  The
+TSA chain revocation is the per-certificate result vector of the timestamping validator,
+aggregated by `revocationFinalResult` - the function modelled and proved in C05, reused here.
+-/
 import NotationModel.Basic
+import NotationModel.Model.C05
 open Lean
 
 namespace NotationModel.C06
 
-def judge (_ : Json) : Except String Json := .error "C06: model not built yet"
+/-- validity window of one certificate of the signing chain: `NotBefore`, `NotAfter` -/
+structure Window where
+  notBefore : Int
+  notAfter : Int
+  deriving DecidableEq, Repr, FromJson, ToJson
+
+inductive Scheme | x509 | signingAuthority
+  deriving DecidableEq, Repr, FromJson, ToJson
+
+/-- the `verifyTimestamp` field of the policy's `signatureVerification` -/
+inductive TsOption | unset | always | afterCertExpiry
+  deriving DecidableEq, Repr, FromJson, ToJson
+
+/-- the RFC 3161 countersignature found in the envelope's unsigned attributes -/
+structure Token where
+  parses : Bool            -- `tspclient.ParseSignedToken` and `Info()` succeed
+  imprintMatches : Bool    -- `TSTInfo.Validate(signerInfo.Signature)`: the imprint is the hash of THIS signature value
+  genTime : Int            -- `TSTInfo.GenTime`
+  accSeconds : Nat         -- `TSTInfo.Accuracy`
+  accMillis : Nat
+  accMicros : Nat
+  baselinePolicy : Bool    -- `TSTInfo.Policy` is the RFC 3628 baseline policy 0.4.0.2023.1.1
+  tsaRootListed : Bool     -- the token's TSA root is held by a tsa store that the policy lists
+  tsaCertOk : Bool         -- the CMS signature verifies under a TSA certificate chaining to that root, valid at
+                           -- `genTime`, whose only, critical, extended key usage is id-kp-timeStamping
+  chainRulesOk : Bool      -- `nx509.ValidateTimestampingCertChain` accepts the TSA chain
+  deriving DecidableEq, Repr, FromJson, ToJson
+
+structure Input where
+  now : Int                       -- what `time.Now()` returns during the verification
+  scheme : Scheme
+  signingTime : Int               -- signed attribute: signingTime (x509) / authenticSigningTime (signing authority)
+  expiry : Option Int             -- signed attribute `expiry`; `none` = absent (Go zero time)
+  chain : List Window             -- the envelope's certificate chain, leaf first
+  tsaListed : Bool                -- the policy's trustStores contain a `tsa:<name>` entry
+  option : TsOption
+  token : Option Token            -- `none`: no timestamp countersignature in the envelope
+  tsaStoresLoad : Bool            -- every listed tsa store loads without error
+  tsaStoresNonEmpty : Bool        -- the listed tsa stores hold at least one certificate
+  tsaRevocationError : Bool       -- the timestamping revocation validator returns an error
+  tsaRevocation : List C05.R      -- its per-certificate results for the TSA chain, leaf first
+  deriving Repr, FromJson, ToJson
+
+/-- what the property observes: the two ValidationResults of `verifier.Verify` -/
+structure Obs where
+  expiryFailed : Bool             -- the `expiry` result carries an error
+  authTsFailed : Bool             -- the `authenticTimestamp` result carries an error
+  deriving DecidableEq, Repr, FromJson, ToJson
+
+/-! ### the code, function by function (`true` = the function returns an error) -/
+
+/-- `verifyExpiry`: `!expiry.IsZero() && !time.Now().Before(expiry)` -/
+def verifyExpiry (now : Int) (expiry : Option Int) : Bool :=
+  match expiry with
+  | none => false
+  | some e => !(decide (now < e))
+
+/-- signing-authority loop of `verifyAuthenticTimestamp`:
+`for cert: if t.Before(cert.NotBefore) || t.After(cert.NotAfter) { fail }` -/
+def saLoop (t : Int) : List Window → Bool
+  | [] => false
+  | w :: rest => if decide (t < w.notBefore) || decide (t > w.notAfter) then true else saLoop t rest
+
+/-- `for cert: if timeOfVerification.After(cert.NotAfter) { expired = true; break }` -/
+def expiredLoop (now : Int) : List Window → Bool
+  | [] => false
+  | w :: rest => if decide (now > w.notAfter) then true else expiredLoop now rest
+
+/-- valid-now loop: `if now.Before(NotBefore) { fail }; if now.After(NotAfter) { fail }` -/
+def validNowLoop (now : Int) : List Window → Bool
+  | [] => false
+  | w :: rest =>
+    if decide (now < w.notBefore) then true
+    else if decide (now > w.notAfter) then true
+    else validNowLoop now rest
+
+/-- `TSTInfo.Validate` (tspclient-go): the accuracy in nanoseconds; an empty accuracy under the
+baseline policy counts as one second -/
+def accuracyNs (k : Token) : Int :=
+  if k.accSeconds == 0 && k.accMicros == 0 && k.accMillis == 0 && k.baselinePolicy then 1000000000
+  else (k.accSeconds : Int) * 1000000000 + (k.accMillis : Int) * 1000000 + (k.accMicros : Int) * 1000
+
+/-- step 4: `if !timestamp.BoundedAfter(NotBefore) { fail }; if !timestamp.BoundedBefore(NotAfter) { fail }` -/
+def rangeLoop (t acc : Int) : List Window → Bool
+  | [] => false
+  | w :: rest =>
+    if !(decide (t - acc ≥ w.notBefore)) then true
+    else if !(decide (t + acc ≤ w.notAfter)) then true
+    else rangeLoop t acc rest
+
+/-- step 5: `revocationFinalResult` over the validator's results for the TSA chain; anything but OK fails -/
+def tsaRevocationFails (rs : List C05.R) : Bool :=
+  match (C05.revocationFinal rs).1 with
+  | .ok => false
+  | .revoked => true                                        -- "timestamping certificate ... is revoked"
+  | .unknown => true                                        -- "... revocation status is unknown"
+
+/-- whether `verifyTimestamp` goes on to check the countersignature (`performTimestampVerification`) -/
+def performs (i : Input) : Bool :=
+  let perform := i.tsaListed
+  if perform && i.option == .afterCertExpiry then
+    if !(expiredLoop i.now i.chain) then false else perform
+  else perform
+
+/-- the countersignature pipeline, steps 1-5 of `verifyTimestamp`, in the order of the code -/
+def pipeline (i : Input) : Bool :=
+  match i.token with
+  | none => true                                            -- 1. no countersignature
+  | some k =>
+    if !k.parses then true                                  -- 2. ParseSignedToken / Info
+    else if !k.imprintMatches then true                     --    info.Validate(signerInfo.Signature)
+    else if !i.tsaStoresLoad then true                      --    loadX509TSATrustStores
+    else if !i.tsaStoresNonEmpty then true                  --    len(trustTSACerts) == 0
+    else if !(k.tsaRootListed && k.tsaCertOk) then true     --    signedToken.Verify(roots = listed tsa stores, time = genTime)
+    else if !k.chainRulesOk then true                       -- 3. ValidateTimestampingCertChain
+    else if rangeLoop k.genTime (accuracyNs k) i.chain then true   -- 4. range inside every window
+    else if i.tsaRevocationError then true                  -- 5. ValidateContext error
+    else tsaRevocationFails i.tsaRevocation
+
+/-- `verifyTimestamp` (scheme notary.x509) -/
+def verifyTimestamp (i : Input) : Bool :=
+  if !(performs i) then validNowLoop i.now i.chain else pipeline i
+
+/-- `verifyAuthenticTimestamp`: the scheme split -/
+def verifyAuthenticTimestamp (i : Input) : Bool :=
+  match i.scheme with
+  | .x509 => verifyTimestamp i
+  | .signingAuthority => saLoop i.signingTime i.chain
+
+def run (i : Input) : Obs :=
+  { expiryFailed := verifyExpiry i.now i.expiry, authTsFailed := verifyAuthenticTimestamp i }
+
+/-! ### the property over observables (declarative: no loops, no order of checks) -/
+
+/-- the instant `t` lies inside the window, both ends included -/
+def Window.contains (w : Window) (t : Int) : Bool := decide (w.notBefore ≤ t) && decide (t ≤ w.notAfter)
+
+/-- the closed range `[lo, hi]` lies inside the window, both ends included -/
+def Window.containsRange (w : Window) (lo hi : Int) : Bool := decide (w.notBefore ≤ lo) && decide (hi ≤ w.notAfter)
+
+/-- "not after the moment of verification": expiry ≤ now -/
+def expired (i : Input) : Bool :=
+  match i.expiry with
+  | none => false
+  | some e => decide (e ≤ i.now)
+
+/-- some certificate of the chain has expired at the moment of verification (strictly after NotAfter) -/
+def chainExpired (i : Input) : Bool := i.chain.any (fun w => decide (w.notAfter < i.now))
+
+/-- timestamp verification applies: a tsa store is listed and the option is unset / always, or
+afterCertExpiry with an expired chain -/
+def tsApplies (i : Input) : Bool :=
+  i.tsaListed && (i.option != .afterCertExpiry || chainExpired i)
+
+/-- everything the property demands of the countersignature -/
+def tokenGood (i : Input) : Bool :=
+  match i.token with
+  | none => false
+  | some k =>
+    k.parses && k.imprintMatches && i.tsaStoresLoad && i.tsaStoresNonEmpty && k.tsaRootListed && k.tsaCertOk &&
+    k.chainRulesOk &&
+    i.chain.all (fun w => w.containsRange (k.genTime - accuracyNs k) (k.genTime + accuracyNs k)) &&
+    !i.tsaRevocationError && i.tsaRevocation.all C05.R.good
+
+def clauses (i : Input) (o : Obs) : Clauses :=
+  let x509 := i.scheme == .x509
+  let passed := !o.authTsFailed
+  [ ("expired_signature_fails_expiry", !(expired i) || o.expiryFailed),
+    ("unexpired_signature_passes_expiry", expired i || !o.expiryFailed),
+    ("signing_authority_passes_iff_chain_valid_at_authentic_signing_time",
+      x509 || (passed == i.chain.all (·.contains i.signingTime))),
+    ("x509_without_timestamping_passes_iff_chain_valid_now",
+      !(x509 && !(tsApplies i)) || (passed == i.chain.all (·.contains i.now))),
+    ("x509_with_timestamping_passes_only_with_good_countersignature",
+      !(x509 && tsApplies i && passed) || tokenGood i),
+    ("x509_with_timestamping_good_countersignature_passes",
+      !(x509 && tsApplies i && tokenGood i) || passed) ]
+
+def Holds (i : Input) (o : Obs) : Bool := (clauses i o).holds
+
+def judge := judgeWith run clauses
 
 end NotationModel.C06
